@@ -238,8 +238,11 @@ def main() -> int:
             yield i
             i += lanes
 
+    stop_file = cfg.get("stop_file")
     for i in indices_iter():
         if indices is None and time.monotonic() > deadline:
+            break
+        if stop_file and indices is None and os.path.exists(stop_file):
             break
         if max_runs is not None and runs >= max_runs:
             break
@@ -343,6 +346,8 @@ def main() -> int:
                     "all_clauses": res.clauses(),
                 }
             )
+            if stop_file:
+                open(stop_file, "w").close()
             # time spent shrinking is not exploration time
             deadline += time.monotonic() - t0
 
